@@ -185,6 +185,8 @@ def run_history(bus, events):
                         tx[cid] = [raw, n]
                     else:
                         n = int(p.split(":")[1])
+                        if cid not in tx:
+                            continue          # the daemon has already dropped this client (only possible when timing went wrong)
                         raw, off = tx[cid]
                         data += raw[off:off + n]
                         tx[cid][1] = off + n
@@ -218,8 +220,8 @@ def run_history(bus, events):
             toks.append(observe())
             dt = (time.time() - t0) * 1000.0
             notes["step_ms"].append(round(dt, 1))
-            if ev[0] != "T":
-                notes["nontick_ms"] += dt
+            # everything that is not the requested idle time counts against the timing assumption (overshoot of a tick included)
+            notes["nontick_ms"] += dt - (int(ev[2:]) if ev[0] == "T" else 0)
         # teardown: everything closed -> the daemon must be back at its baseline
         for cid in list(conns):
             conns[cid].close()
